@@ -455,9 +455,38 @@ def run(chk, tier):
             continue
         sta = St()
         oa = ea.run(fa_[0], [ea.sym_ref(sta, 'self')], sta)
-        ws = [[vshow(ev[3]) for ev in o.st.events if ev[0] == 'write' and ev[1] == TA_ and ev[2] == 'selected_hop_address'] for o in oa if o.kind == 'return']
-        if ws and all(w_ and re.fullmatch(BOUND, w_[-1]) for w_ in ws) and any('addr_count' in w_[-1] for w_ in ws):
-            done = (nm, len(ws))
+        # per returning trace: the index ends ≤ B, B = addr_count(selected hop) − 1 or 0 — written as min(index, B), or left alone on a trace that decided
+        # index ≤ B and stored B on the trace that decided index > B (`if index > B { index = B }`)
+        from ..tables import holds
+        BEXP = r'(?:0|saturating_sub\(call:Hop::addr_count\(%s\), 1\))' % HOPSEL
+        okt, n_t, uses_count = True, 0, False
+        for o in oa:
+            if o.kind != 'return':
+                continue
+            n_t += 1
+            w_ = [vshow(ev[3]) for ev in o.st.events if ev[0] == 'write' and ev[1] == TA_ and ev[2] == 'selected_hop_address']
+            if w_ and re.fullmatch(BOUND, w_[-1]):
+                uses_count = uses_count or 'addr_count' in w_[-1]
+                continue
+            gts = [(vshow(a), v) for a, v, _ in o.st.decisions if re.fullmatch(r'(?:Gt|Le|Lt|Ge)\(.*selected_hop_address.*\)', vshow(a))]
+            good = False
+            for a_, v_ in gts:
+                for b_ in re.findall(BEXP, a_):
+                    pass
+                mb = re.search(BEXP, a_)
+                if not mb:
+                    continue
+                bterm = mb.group(0)
+                h = holds(o.st.decisions, 'Gt(self.selected_hop_address, %s)' % bterm)
+                if h == 0 and not w_:
+                    good = True
+                if h == 1 and w_ and w_[-1] == bterm:
+                    good = True
+                uses_count = uses_count or 'addr_count' in bterm
+            if not good:
+                okt = False
+        if n_t and okt and uses_count:
+            done = (nm, n_t)
     if done:
         chk.ok('R3', 'hop-address:revalidated', '%s bounds selected_hop_address by the address count of the selected hop on all %d traces' % done)
     else:
